@@ -18,6 +18,9 @@ pub struct C07 {
     pub xs: Vec<u64>,
     /// the bar is built with_position(this); reset_elapsed/reset_eta are in the alphabet then
     pub pos0: Option<u64>,
+    /// the bar is built with_finish(Abandon) and restyling (set_style) is in the alphabet: the finish
+    /// behaviour belongs to the bar, not to the style
+    pub abandon: bool,
 }
 
 impl Hist for C07 {
@@ -35,6 +38,9 @@ impl Hist for C07 {
         if self.pos0.is_some() {
             v.extend([BOp::ResetElapsed, BOp::ResetEta]);
         }
+        if self.abandon {
+            v.push(BOp::Style(0));
+        }
         v
     }
 
@@ -44,17 +50,20 @@ impl Hist for C07 {
         let style = ProgressStyle::with_template("{f}|{percent}|{pos}|{len}").unwrap().with_key("f", |s: &ProgressState, w: &mut dyn Write| write!(w, "{:?}", s.fraction()).unwrap());
         let mp = self.multi.then(|| indicatif::MultiProgress::with_draw_target(indicatif::ProgressDrawTarget::term_like(Box::new(catcher.clone()))));
         let pb = match mp.as_ref() {
-            Some(m) => m.add(indicatif::ProgressBar::with_draw_target(self.len0, indicatif::ProgressDrawTarget::hidden()).with_style(style)),
-            None => bar_on(&catcher, self.len0, style),
+            Some(m) => m.add(indicatif::ProgressBar::with_draw_target(self.len0, indicatif::ProgressDrawTarget::hidden()).with_style(style.clone())),
+            None => bar_on(&catcher, self.len0, style.clone()),
         };
+        // (the operations go through a handle cloned before with_position: both see one position)
+        let early_clone = pb.clone();
         let pb = match self.pos0 {
             Some(p) => pb.with_position(p),
             None => pb,
         };
-        let mut rf = RefState::new(self.len0, Fin::AndClear, 0);
+        let pb = if self.abandon { pb.with_finish(indicatif::ProgressFinish::Abandon) } else { pb };
+        let mut rf = RefState::new(self.len0, if self.abandon { Fin::Abandon } else { Fin::AndClear }, 0);
         rf.pos = self.pos0.unwrap_or(0);
         let shown: Vec<String> = hist.iter().map(|o| format!("{:?}", o)).collect();
-        let cfg = format!("initial length {:?}{}{}", self.len0, if self.multi { ", member of a MultiProgress" } else { "" }, match self.pos0 { Some(p) => format!(", built with_position({p})"), None => String::new() });
+        let cfg = format!("initial length {:?}{}{}{}", self.len0, if self.abandon { ", built with_finish(Abandon), set_style among the operations" } else { "" }, if self.multi { ", member of a MultiProgress" } else { "" }, match self.pos0 { Some(p) => format!(", built with_position({p})"), None => String::new() });
         for (i, op) in hist.iter().enumerate() {
             clock::advance_ms(7);
             if *op == BOp::MpRemove {
@@ -62,7 +71,9 @@ impl Hist for C07 {
                     m.remove(&pb);
                 }
             }
-            if let Err(p) = catch(|| apply(&pb, op)) {
+            let through = if self.pos0.is_some() && i % 2 == 0 { &early_clone } else { &pb };
+            let r = if matches!(op, BOp::Style(_)) { catch(|| through.set_style(style.clone())) } else { catch(|| apply(through, op)) };
+            if let Err(p) = r {
                 let _ = catch(move || drop(pb));
                 return Verdict::Bad(Violation { class: format!("panic: {}", panic_class(&p)), config: cfg, history: shown[..=i].to_vec(), detail: p });
             }
@@ -121,8 +132,8 @@ impl Hist for C07 {
 
 fn configs(tier: Tier) -> Vec<(C07, usize)> {
     match tier {
-        Tier::Quick => vec![(C07 { multi: false, len0: Some(9), xs: vec![1, u64::MAX], pos0: Some(4) }, 3), (C07 { multi: true, len0: Some(5), xs: vec![1, u64::MAX], pos0: None }, 3), (C07 { multi: false, len0: Some(5), xs: XS.to_vec(), pos0: None }, 3), (C07 { multi: false, len0: Some(5), xs: vec![1, u64::MAX], pos0: None }, 4), (C07 { multi: false, len0: None, xs: vec![1, u64::MAX], pos0: None }, 3), (C07 { multi: false, len0: Some(u64::MAX), xs: vec![0, 1 << 63, u64::MAX], pos0: None }, 3)],
-        Tier::Thorough => vec![(C07 { multi: false, len0: Some(9), xs: vec![1, 2, u64::MAX], pos0: Some(4) }, 4), (C07 { multi: true, len0: None, xs: vec![1], pos0: Some(u64::MAX) }, 4), (C07 { multi: true, len0: Some(5), xs: vec![1, 2, u64::MAX], pos0: None }, 4), (C07 { multi: true, len0: Some(u64::MAX), xs: vec![1], pos0: None }, 4), (C07 { multi: false, len0: Some(5), xs: XS.to_vec(), pos0: None }, 4), (C07 { multi: false, len0: None, xs: XS.to_vec(), pos0: None }, 3), (C07 { multi: false, len0: Some(u64::MAX), xs: vec![1, 1 << 63, u64::MAX], pos0: None }, 5)],
+        Tier::Quick => vec![(C07 { multi: false, len0: Some(9), xs: vec![1], pos0: None, abandon: true }, 3), (C07 { multi: false, len0: Some(9), xs: vec![1, u64::MAX], pos0: Some(4), abandon: false }, 3), (C07 { multi: true, len0: Some(5), xs: vec![1, u64::MAX], pos0: None, abandon: false }, 3), (C07 { multi: false, len0: Some(5), xs: XS.to_vec(), pos0: None, abandon: false }, 3), (C07 { multi: false, len0: Some(5), xs: vec![1, u64::MAX], pos0: None, abandon: false }, 4), (C07 { multi: false, len0: None, xs: vec![1, u64::MAX], pos0: None, abandon: false }, 3), (C07 { multi: false, len0: Some(u64::MAX), xs: vec![0, 1 << 63, u64::MAX], pos0: None, abandon: false }, 3)],
+        Tier::Thorough => vec![(C07 { multi: true, len0: Some(9), xs: vec![1, u64::MAX], pos0: None, abandon: true }, 4), (C07 { multi: false, len0: Some(9), xs: vec![1, 2, u64::MAX], pos0: Some(4), abandon: false }, 4), (C07 { multi: true, len0: None, xs: vec![1], pos0: Some(u64::MAX), abandon: false }, 4), (C07 { multi: true, len0: Some(5), xs: vec![1, 2, u64::MAX], pos0: None, abandon: false }, 4), (C07 { multi: true, len0: Some(u64::MAX), xs: vec![1], pos0: None, abandon: false }, 4), (C07 { multi: false, len0: Some(5), xs: XS.to_vec(), pos0: None, abandon: false }, 4), (C07 { multi: false, len0: None, xs: XS.to_vec(), pos0: None, abandon: false }, 3), (C07 { multi: false, len0: Some(u64::MAX), xs: vec![1, 1 << 63, u64::MAX], pos0: None, abandon: false }, 5)],
     }
 }
 
